@@ -1632,3 +1632,42 @@ def r14_7(rep):
         rep.check(since <= lo, "helper-feature:" + feat.split(" ")[0],
                   "`%s` (since 1.%d) is used in %s; the earliest supported target is 1.%d" % (feat, since, ", ".join(fns), lo) if since > lo else
                   "since 1.%d <= earliest supported 1.%d" % (since, lo), "bindgen/codegen/bitfield_unit.rs:%s" % sites[0][0].loc(sites[0][1]).split(":")[-1])
+
+
+@RULES.rule("R14.8", "helper items written in quote! use no `const fn` capability newer than the targets they are emitted for", floor=2)
+def r14_8(rep):
+    """`__BindgenUnionField` (emitted for every target when a union is not a Rust union) declares
+    `pub const unsafe fn as_mut(&mut self) -> &mut T`.  Mutable references in `const fn` are stable since Rust 1.83 (`const_mut_refs`),
+    later than every stable target bindgen knows (1.82 is the newest); the site is not gated by any target feature.  Per quote! site in
+    codegen that declares a `const fn`: a `&mut` in the signature needs 1.83 — it must be gated or the earliest target must have it."""
+    import qq as _qq
+    prog = rep.prog
+    consts = ctx_of(rep).stable_consts()
+    earliest = prog.fn("features::EARLIEST_STABLE_RUST")
+    m = re.search(r"Stable_1_(\d+)", earliest.canon(earliest.root, 6)) if earliest is not None else None
+    lo = int(m.group(1)) if m else min(v for k, v in consts.items() if not k.endswith("Nightly"))
+    n = 0
+    for p, b in sorted(prog.bodies.items()):
+        if not b.file.startswith("bindgen/codegen"):
+            continue
+        for q in _qq.quote_sites(b):
+            t = q.tokens
+            for i in range(len(t) - 3):
+                if t[i] == "const" and (t[i + 1] == "fn" or (t[i + 1] == "unsafe" and t[i + 2] == "fn")):
+                    j = i + (2 if t[i + 1] == "fn" else 3)
+                    name = t[j] if j < len(t) else "?"
+                    # signature up to the body
+                    k = j
+                    sig = []
+                    while k < len(t) and t[k] != "{":
+                        sig.append(t[k])
+                        k += 1
+                    n += 1
+                    mut_ref = any(sig[x] == "&" and x + 1 < len(sig) and sig[x + 1] == "mut" for x in range(len(sig))) or "&mut" in sig
+                    gated = any("rust_features" in a or "RustFeatures" in a for a, pol, g in _qq.guard_atoms(b, q.root))
+                    ok = (not mut_ref) or gated or lo >= 83
+                    rep.check(ok, "const-fn-capability:%s@%s" % (name, short(b)), "no `&mut` in the signature" if not mut_ref else
+                              ("gated" if gated else "earliest target has const_mut_refs") if ok else
+                              "`const fn %s` takes / returns `&mut`, stable in `const fn` since 1.83; the site is emitted ungated for every target "
+                              "(earliest supported: 1.%d, newest stable known: 1.82)" % (name, lo), q.loc())
+    rep.need(n >= 2, "`const fn` declarations in quote! sites of codegen")
